@@ -43,6 +43,21 @@ def op_pipeline(req):
         first, delta, last = req["case"]["windows"]
         windows = range(first, last + 1, delta)
         genome = req.get("genome", "G")
+        try:
+            return _pipeline_body(req, d, gpath, tpath, out, ovl, windows, genome)
+        except BaseException as e:  # noqa
+            left = sorted(fn for fn in os.listdir(out) if fn.endswith(".h5")) if os.path.isdir(out) else []
+            return {"ok": False, "exc": type(e).__name__, "msg": str(e)[:500], "tb": traceback.format_exc()[-1500:], "result_files": left}
+    finally:
+        shutil.rmtree(d, ignore_errors=True)
+
+
+def _pipeline_body(req, d, gpath, tpath, out, ovl, windows, genome):
+    from transposon.preprocess import PreProcessor
+    from transposon.overlap_manager import _OverlapJob, _calculate_overlap_job
+    from transposon.gene_data import GeneData
+    import process_genome
+    if True:
         pre = PreProcessor(gpath, tpath, out, req.get("reset_h5", False), genome, req.get("revise_anno", False))
         pre.process()
         files = []
@@ -66,8 +81,6 @@ def op_pipeline(req):
             if fn.endswith("_TEData.tsv"):
                 caches[fn] = read_tsv(os.path.join(pre.cache_dir, fn))
         return {"ok": True, "files": files, "revised": rev, "te_caches": caches}
-    finally:
-        shutil.rmtree(d, ignore_errors=True)
 
 
 def op_preprocess(req):
